@@ -98,7 +98,7 @@ class C08(Prop):
     s = detsched.Scheduler(schedule=case["schedule"], step_limit=400000,
                            trace_files=[files["activeobject"]])
     try:
-      s.run(body)
+      detsched.guarded_run(s, body)
     except (detsched.Deadlock, detsched.StepLimit) as e:
       raise PropertyViolation("no quiescence: %s" % e, "C08:liveness")
     if s.thread_errors:
